@@ -31,8 +31,8 @@ checks = [
      "Reference paths are classified by the solver (halted / proved divergent through a state recurrence decided under the path condition); on divergent paths every interpreter/level must stay unfinished under budgets 64 and 256 with events a prefix of the periodic canonical stream, on halted paths the unlimited call must return.",
      BASE_NOTE + "; non-return of the subject only up to budget 256", SYMX + ", solver-proved divergence of the reference"),
  chk("C06", "model_checking",
-     "The real interpreters run symbolically in checked mode while every alloc_zeroed block (tape, interpreter context and temporaries) is placed flush against PROT_NONE pages (left and right placements); any out-of-allocation access on any explored path faults, is replayed natively under the same allocator and reported; event equality with the reference establishes that cells keep their values across reallocations.",
-     BASE_NOTE + "; JIT accesses are bounds-checked exactly in the x86 model; geometry lemmas for the Memory functions are translated from MIR and decided for all 64-bit geometries within the stated preconditions (cvc5 integer encoding, cross-checked by bit-blasting solvers when it does not answer)", SYMX + " under a guard-page allocator; MIR-to-SMT lemmas for the tape geometry"),
+     "The real interpreters run symbolically in checked mode while every alloc_zeroed block (tape, interpreter context and temporaries) is placed flush against PROT_NONE pages (left and right placements); any out-of-allocation access on any explored path faults, is replayed natively under the same allocator and reported; event equality with the reference establishes that cells keep their values across reallocations.  For every tape geometry (symbolic buffer, size, pointer; all 64-bit values within the stated preconditions) three lemma families are decided by the solver: the Memory functions (MIR), the bytecode interpreter's movl/movr/scanl/scanr with checkl/checkr inlined (MIR, scan loop cut at its head as an inductive step), and the JIT's pointer-move machine code (x86 model): the whole access window stays inside the (possibly reallocated) block and the pointer denotes the moved logical cell.",
+     BASE_NOTE + "; JIT accesses are bounds-checked exactly in the x86 model; geometry lemmas for the Memory functions are translated from MIR and decided for all 64-bit geometries within the stated preconditions (cvc5 integer encoding, cross-checked by bit-blasting solvers when it does not answer)", SYMX + " under a guard-page allocator; MIR-to-SMT lemmas for the tape geometry and the interpreter's move/scan ops; x86-model lemmas for the JIT's pointer-move sequence with symbolic geometry"),
  chk("C07", "model_checking",
      "execute_limited of every interpreter/level runs symbolically for every listed budget and 2^62 on every explored path: finished implies the complete canonical event sequence, interrupted implies a prefix, 2^62 implies finished on halted paths, and no budget reports finished on proved-divergent paths; a limited run exceeding the operation cap is replayed under a wall clock.",
      BASE_NOTE + "; budgets enumerated (listed budgets + 2^62)", SYMX),
